@@ -185,7 +185,10 @@ void h_page_start(void) {
   CHECK(p + psize == lo + cnt * MI_SEGMENT_SLICE_SIZE, "page area ends exactly at the span end");
   CHECK(psize <= cnt * MI_SEGMENT_SLICE_SIZE, "page size does not exceed the span");
   CHECK(psize >= bs, "at least one block fits");
-  CHECK(((uintptr_t)p % bs) == 0, "page start aligned to the block size (alignment guarantee)");
+  /* what mi_malloc_is_naturally_aligned relies on: blocks of size bs are aligned to every power of two that divides bs, i.e. the
+     page start is aligned to the largest such power (= bs itself for 2^k classes).  (Sizes = 8 mod 16 -- 24, 40, 56 -- are not
+     bs-aligned after the 16-byte round-up of the start offset, and no property asks for that.) */
+  CHECK(((uintptr_t)p % (bs & (~bs + 1))) == 0, "page start aligned to the largest power of two dividing the block size (alignment guarantee)");
   CHECK(psize / bs >= 1 && (bs > MI_SMALL_OBJ_SIZE_MAX || psize / bs >= 7), "page holds at least 7 small / 1 medium blocks");
   WITNESS("end");
 }
@@ -199,7 +202,11 @@ void h_unalign(void) {
   size_t bs = _mi_bin_size(BIN);
 #else
   size_t bs = nd_size();
+#ifdef SYM_BS_MAX          /* symbolic block size: bounded so that the symbolic modulo stays decidable (all real bins are decided exactly, one obligation per bin) */
+  ASSUME(bs >= 8 && bs % 8 == 0 && bs <= SYM_BS_MAX);
+#else
   ASSUME(bs >= 8 && bs % 8 == 0 && bs <= MI_LARGE_OBJ_SIZE_MAX);
+#endif
 #endif
   page.block_size = bs;
   page.block_size_shift = (uint8_t)(_mi_is_power_of_two(bs) ? mi_ctz(bs) : 0);   /* as in mi_page_init */
@@ -209,6 +216,9 @@ void h_unalign(void) {
   page.page_start = start;
   size_t boff = nd_size();           /* offset of the block start in the page area */
   ASSUME(boff < MI_SEGMENT_SIZE - soff && boff % bs == 0);
+#ifdef SYM_BOFF_MAX
+  ASSUME(boff <= SYM_BOFF_MAX);
+#endif
   size_t off = nd_size();            /* interior offset */
   ASSUME(off < bs && soff + boff + off < MI_SEGMENT_SIZE);
   void* p = (void*)(start + boff + off);
@@ -265,6 +275,11 @@ void h_helpers(void) {
   uintptr_t x = nd_u64();
   size_t a = nd_size();
   ASSUME(a != 0);
+#if HELPERS_MODE == 1          /* power-of-two alignment 2^k (the mask paths), full 64-bit value */
+  ASSUME((a & (a - 1)) == 0);
+#elif HELPERS_MODE == 2        /* any alignment (the divide/multiply paths), value and alignment below 2^HELPERS_BITS */
+  ASSUME(x < ((uintptr_t)1 << HELPERS_BITS) && a < ((size_t)1 << HELPERS_BITS));
+#endif
   if (x <= UINTPTR_MAX - a) {
     uintptr_t u = _mi_align_up(x, a);
     CHECK(u >= x && u - x < a && u % a == 0, "_mi_align_up: smallest multiple >= x");
